@@ -22,7 +22,6 @@ import (
 	"pgregory.net/rapid"
 
 	"verifharness/internal/evid"
-	"verifharness/internal/kf"
 	"verifharness/internal/sim"
 )
 
@@ -464,23 +463,7 @@ func TestConcurrent(t *testing.T) {
 		}
 
 		// ---- race reports of this run ----
-		for _, rep := range newRaceReports() {
-			if rep.Harness {
-				atomic.AddInt64(&raceKnown, 1)
-				evid.Count("race_by_harness." + rep.Key)
-				continue
-			}
-			key := "c14.race." + rep.Key
-			if kf.Listed("C14", key) {
-				atomic.AddInt64(&raceKnown, 1)
-			} else {
-				atomic.AddInt64(&raceUnknown, 1)
-			}
-			evid.Count("race." + rep.Key)
-			if kf.Report(t, "C14", key, "data race between pool operations:\n%s", rep.Text) {
-				continue
-			}
-		}
+		reportRaces(t)
 
 		// ---- quiescence ----
 		if syncing {
@@ -567,23 +550,7 @@ func TestConcurrent(t *testing.T) {
 			if persisted {
 				evid.Count("conc.keeper.persisted")
 				// a late report of the keeper's own goroutines belongs to this case
-				for _, rep := range newRaceReports() {
-					if rep.Harness {
-						atomic.AddInt64(&raceKnown, 1)
-						evid.Count("race_by_harness." + rep.Key)
-						continue
-					}
-					key := "c14.race." + rep.Key
-					if kf.Listed("C14", key) {
-						atomic.AddInt64(&raceKnown, 1)
-					} else {
-						atomic.AddInt64(&raceUnknown, 1)
-					}
-					evid.Count("race." + rep.Key)
-					if kf.Report(t, "C14", key, "data race between pool operations:\n%s", rep.Text) {
-						continue
-					}
-				}
+				reportRaces(t)
 			}
 		}
 		nAsync := 0
